@@ -104,6 +104,20 @@ def check_url_schemes(inst: "MdParserConfig", field: dc.Field, value: Any) -> No
     setattr(inst, field.name, new_dict)
 
 
+def check_words_per_minute(_: "MdParserConfig", field: dc.Field, value: Any) -> None:
+    """Check that the words_per_minute is a positive integer (it is used as a divisor)."""
+    if not isinstance(value, int) or value <= 0:
+        raise TypeError(f"'{field.name}' must be a positive integer: {value!r}")
+
+
+def check_disable_syntax(inst: "MdParserConfig", field: dc.Field, value: Any) -> None:
+    """Check that the disable_syntax is a list of rule names, that can be disabled."""
+    deep_iterable(instance_of(str), instance_of((list, tuple)))(inst, field, value)
+    if "paragraph" in value:
+        # the block parser does not terminate without its fallback rule
+        raise ValueError(f"'{field.name}' cannot contain 'paragraph'")
+
+
 def check_sub_delimiters(_: "MdParserConfig", field: dc.Field, value: Any) -> None:
     """Check that the sub_delimiters are a tuple of length 2 of strings of length 1"""
     if (not isinstance(value, tuple | list)) or len(value) != 2:
@@ -211,7 +225,7 @@ class MdParserConfig:
     disable_syntax: Iterable[str] = dc.field(
         default_factory=list,
         metadata={
-            "validator": deep_iterable(instance_of(str), instance_of((list, tuple))),
+            "validator": check_disable_syntax,
             "help": "Disable Commonmark syntax elements",
         },
     )
@@ -337,7 +351,7 @@ class MdParserConfig:
     words_per_minute: int = dc.field(
         default=200,
         metadata={
-            "validator": instance_of(int),
+            "validator": check_words_per_minute,
             "help": "For reading speed calculations",
         },
     )
